@@ -376,6 +376,8 @@ def _get(d, dotted):
     for p in dotted.split("."):
         if isinstance(d, dict) and p in d:
             d = d[p]
+        elif isinstance(d, list) and p.isdigit() and int(p) < len(d):
+            d = d[int(p)]
         else:
             return None
     return d
